@@ -15,7 +15,6 @@
 """Utility functions for working with lead sheets."""
 
 import copy
-import itertools
 
 from note_seq import chords_lib
 from note_seq import constants
@@ -100,7 +99,7 @@ class LeadSheet(events_lib.EventSequence):
     Returns:
       Python iterator over (melody, chord) event tuples.
     """
-    return itertools.izip(self._melody, self._chords)
+    return zip(self._melody, self._chords)
 
   def __getitem__(self, i):
     """Returns the melody-chord tuple at the given index."""
